@@ -6,9 +6,8 @@
 //! sub-check.
 
 use crate::engine::*;
-use crate::footprint;
 use crate::gen;
-use crate::lockstep::lockstep_opts;
+use crate::lockstep::{context_skip, lockstep_opts, owner_of};
 use crate::spec::*;
 use proptest::prelude::*;
 use serde_json::{json, Value};
@@ -34,58 +33,9 @@ fn strategy() -> BoxedStrategy<StateSpec> {
         .boxed()
 }
 
-/// which property answers for a mismatch at `label`
-fn owner_of(label: &str) -> String {
-    match label {
-        "<list>" | "<literal>" | "<empty>" => "C06".to_string(),
-        "<name>" => "C07".to_string(),
-        n => footprint::get(n).map(|f| f.owner.clone()).unwrap_or_default(),
-    }
-}
-
 pub fn judge(prop: &str, s: &StateSpec) -> CaseResult {
     let reg: BTreeSet<String> = crate::exec::registry_names().into_iter().collect();
-    // K2 (known finding of C04): the value of the two inverted conversions is not compared here
-    // C08's instructions: `=` / DISCREPANCY compare printed forms by (pinned) design, which is
-    // not injective on floats and vectors; whether NaN matches NaN structurally is unspecified
-    let skip = |n: &str, before: &StateSpec| {
-        if n == "BOOLEAN.FROMFLOAT" || n == "BOOLEAN.FROMINTEGER" {
-            return true;
-        }
-        if owner_of(n) == "C08" {
-            // the instruction itself is still on EXEC in `before`
-            let tops: Vec<&ItemSpec> = before.code.iter().take(3).chain(before.exec.iter().take(4)).collect();
-            let has = |f: &dyn Fn(&ItemSpec) -> bool| tops.iter().any(|t| t.preorder().iter().any(|x| f(x)));
-            let printed = matches!(n, "CODE.=" | "EXEC.=" | "CODE.DISCREPANCY");
-            if printed {
-                // compared only when printing is injective on the sub-items involved: no two
-                // structurally different sub-items with the same printed form (vectors lose
-                // their type, floats their digits, names may spell a literal or be empty)
-                let subs: Vec<&ItemSpec> = tops.iter().flat_map(|t| t.preorder()).collect();
-                if subs.len() > 80 {
-                    return true;
-                }
-                let texts: Vec<String> = subs.iter().map(|x| crate::refmodel::print_item(x)).collect();
-                for i in 0..subs.len() {
-                    if texts[i].trim().is_empty() || matches!(subs[i], ItemSpec::Name(s) if s.chars().any(|c| c.is_whitespace() || c == '(' || c == ')')) {
-                        return true;
-                    }
-                    for j in (i + 1)..subs.len() {
-                        if texts[i] == texts[j] && subs[i] != subs[j] {
-                            return true;
-                        }
-                    }
-                }
-                return false;
-            }
-            return has(&|x| match x {
-                ItemSpec::Float(v) => v.is_nan(),
-                ItemSpec::FVec(v) => v.iter().any(|e| e.is_nan()),
-                _ => false,
-            });
-        }
-        false
-    };
+    let skip = |n: &str, before: &StateSpec| context_skip(n, before);
     match lockstep_opts(prop, s, 250, &reg, &skip, true) {
         Ok(r) => {
             let owned = r.instrs.iter().filter(|n| owner_of(n) == prop).count();
@@ -109,6 +59,18 @@ pub fn run(ctx: &Ctx, n: u64) -> SubReport {
     let mut rep = run_sharded(ctx, "in-program-context", n, strategy, move |s: &StateSpec| judge(&prop, s), |s| json!({"state": s.to_json(), "program": s.exec.iter().map(|x| x.render()).collect::<Vec<_>>().join(" | ")}));
     rep.notes.push("programs over the whole RAND-free registry on generated states, <= 250 lock-stepped steps against the reference interpreter (size operands clamped, resource envelope); only mismatches at instructions owned by this property (footprint table) are reported here; not value-compared: BOOLEAN.FROMFLOAT/FROMINTEGER (known finding K2), `=`/DISCREPANCY on items with floats or vectors (printed-form comparison is pinned and not injective there), structural CODE instructions on items containing NaN (unspecified)".into());
     rep
+}
+
+/// quick: the generated sub-check; thorough: additionally the coverage-guided campaign of the
+/// lockstep_ref libFuzzer target restricted to this property's instructions (PV_OWNER)
+pub fn run_all(ctx: &Ctx, n: u64) -> Vec<SubReport> {
+    let mut v = vec![run(ctx, n)];
+    if ctx.tier == Tier::Thorough {
+        let mut r = crate::fuzzrun::campaign_env(ctx, &ctx.prop, "lockstep_ref", 1_000_000, 1024, &[("PV_OWNER", ctx.prop.as_str())]);
+        r.notes.push("target: bytes -> initial stacks, bindings and a program tree over the RAND-free registry -> <= 200 steps in lock-step with the reference interpreter; aborts on a mismatch at an instruction owned by this property".into());
+        v.push(r);
+    }
+    v
 }
 
 pub fn replay(ctx: &Ctx, case: &Value) -> Result<(), Fail> {
